@@ -67,7 +67,7 @@ static _Bool inv(int state, cfg_opt_t *opt, char *comment, char *opttitle, int i
 static int g_cur_reset_entry;
 static int h_cur_reset_at_entry(void) { return g_cur_reset_entry; }
 _Bool in_dup_fail;
-#define KF_COMMENT_CASE (in_tok == CFGT_COMMENT && in_state != 0 && in_state != 10 && in_state != 13)
+#define KF_COMMENT_CASE (in_tok == CFGT_COMMENT && in_state >= 1 && in_state <= 9)
 
 /* translate the reference action list into expected monitor events and compare */
 static void check_actions(void)
@@ -134,6 +134,19 @@ static void check_continue(void)
 	cfg_opt_t *want_opt = g_so.next_cur == 1 ? &h_found : g_so.next_cur == 2 ? &h_added : g_so.next_cur == 3 ? NULL : (in_cur_null ? NULL : &h_cur);
 	if (KF_COMMENT_CASE) {
 		KFCHECK("C15-comment-token-only-in-name-state", "C15", *p_state == in_state && g_nev == 0, "a comment between two tokens inside an item is transparent (same state, no action)");
+		return;
+	}
+	if (in_state >= 10) {
+		/* the discarding sub-parser: its transition table is the code's own business (the reference skipper is checked by
+		 * the scripted units); what the statement C12 demands of every step is stated here: it stays inside the skipper or
+		 * is back at the item level, performs no action, delivers no diagnostic, keeps no annotation pending */
+		CHECK("C12", *p_state == 0 || (*p_state >= 10 && *p_state <= 15), "while skipping an undeclared item the parser stays in the skipper or returns to the item level");
+		CHECK("C12", in_force != 10 || *p_state >= 10, "the discarding sub-parser of a skipped section never resumes normal parsing");
+		CHECK("C12,C15", in_state != 10 || *p_state == 10 || *p_comment == NULL || *p_comment == h_comment, "no new annotation is picked up while skipping");
+		if (in_state != 12) CHECK("C12", g_nev == 0, "skipping performs no lookup, store, callback or release");
+		else CHECK("C12", g_nev <= 1 && (g_nev == 0 || g_ev[0].kind == EV_RECURSE), "skipping performs no action except entering the discarding sub-parser");
+		CHECK("C12,C06", g_diag == g_diag0 + (in_tok == 0 ? 1 : 0) + ((in_state == 12 && in_rec_result == SP_RET_ERROR) ? 1 : 0), "skipping delivers no diagnostic of its own");
+		CHECK("C01,C02,C07", inv(*p_state, *p_opt, *p_comment, *p_opttitle, *p_ignore, *p_num_values, p_funcopt), "INV: the loop invariant holds again at the loop head");
 		return;
 	}
 	CHECK("C01,C12", g_so.outcome == SP_CONT, "the parse continues exactly when the reference automaton continues");
@@ -299,6 +312,12 @@ void h_parse_step(void)
 			/* a section body (nested activation without forced option) that meets the end of input: the language wants the
 			 * closing brace; the function answers "end of section" for both - recorded finding */
 			KFCHECK("C01-unterminated-section-accepted", "C01,C06", rc == STATE_ERROR && g_diag >= 1, "end of input inside a section body is rejected with a diagnostic");
+		} else if (in_state >= 10) {
+			/* the discarding sub-parser ended the activation: only the statement-level facts are demanded (see check_continue) */
+			CHECK("C12", rc == STATE_ERROR || (rc == STATE_CONTINUE && in_force == 10), "the skipper ends an activation only by rejecting or, in a skipped section, by handing back to its caller");
+			CHECK("C12,C06", rc != STATE_ERROR || g_diag >= 1, "a rejection while skipping is reported");
+			CHECK("C12", rc == STATE_ERROR || g_diag == 0, "handing back to the caller delivers no diagnostic");
+			if (in_state != 12) CHECK("C12", g_nev == 0, "skipping performs no lookup, store, callback or release");
 		} else {
 			CHECK("C01,C12", g_so.outcome != SP_CONT, "the parse ends exactly when the reference automaton ends it");
 			CHECK("C01,C06", rc == (g_so.outcome == SP_RET_EOF ? STATE_EOF : g_so.outcome == SP_RET_CONTINUE ? STATE_CONTINUE : STATE_ERROR), "the verdict (accepted / rejected / sub-section skipped) is the reference one");
